@@ -703,7 +703,7 @@ func vVersionValues(ver int) map[string]any {
 		"WRITING":    &WritingState{BasePath: base},
 		"TESMAPFILE": mapfile,
 		"ABACO": &AbacoSourceConfig{ActiveCards: []int{ver % 3}, HostPortUDP: []string{fmt.Sprintf("localhost:%d", 4000+ver)},
-			AbacoUnwrapOptions: AbacoUnwrapOptions{RescaleRaw: true, Unwrap: ver%2 == 0, Bias: ver%3 == 0, ResetAfter: 1000 + ver, PulseSign: 1 - 2*(ver%2), InvertChan: []int{ver, ver + 1}}},
+			AbacoUnwrapOptions: AbacoUnwrapOptions{RescaleRaw: true, Unwrap: ver%2 == 0, Bias: ver%3 == 0, ResetAfter: (1000 + ver) * (1 - ver%2), PulseSign: 1 - 2*(ver%2), InvertChan: []int{ver, ver + 1}}}, // (odd versions: unwrapping off and no reset interval, a legitimate saved value)
 		"ROACH":   &RoachSourceConfig{HostPort: []string{fmt.Sprintf("10.0.0.%d:6000", 1+ver%200)}, Rates: []float64{40000 + float64(ver)}},
 		"LANCERO": &LanceroSourceConfig{FiberMask: uint32(ver), CardDelay: []int{ver % 7}, ActiveCards: []int{ver % 4}, FirstRow: ver, ChanSepCards: 100 * ver, ChanSepColumns: ver},
 		"TRIGGER": []FullTriggerState{
